@@ -483,16 +483,27 @@ Qed.
 
 (* ---- keyword lines of the C04 constructs in the extended machine ---------------------------- *)
 Definition kw_names := n_if ++ n_elseif ++ n_else ++ n_endif ++ n_while ++ n_endwhile ++ n_for ++ n_endfor.
+Lemma kw_names_split c : In c kw_names ->
+  In c n_if \/ In c n_elseif \/ In c n_else \/ In c n_endif \/ In c n_while \/ In c n_endwhile \/
+  In c n_for \/ In c n_endfor.
+Proof.
+  unfold kw_names. intros H.
+  apply in_app_or in H; destruct H as [H|H]; [auto|].
+  apply in_app_or in H; destruct H as [H|H]; [auto|].
+  apply in_app_or in H; destruct H as [H|H]; [auto|].
+  apply in_app_or in H; destruct H as [H|H]; [auto 6|].
+  apply in_app_or in H; destruct H as [H|H]; [auto 7|].
+  apply in_app_or in H; destruct H as [H|H]; [auto 8|].
+  apply in_app_or in H; destruct H as [H|H]; [auto 9|auto 10].
+Qed.
 Lemma kw_names_base c : In c kw_names -> classify_fn c = FKBase (classify c) /\ classify c <> KEnd.
 Proof.
   intros H. split.
-  - apply base_kind. unfold kw_names in H.
-    repeat (apply in_app_or in H; destruct H as [H|H]);
-      repeat (first [apply in_or_app; left; exact H | apply in_or_app; right]).
-  - unfold kw_names in H.
-    repeat (apply in_app_or in H; destruct H as [H|H]);
-      [rewrite (cl_if TW c H)|rewrite (cl_elseif TW c H)|rewrite (cl_else TW c H)|rewrite (cl_endif TW c H)
-      |rewrite (cl_while TW c H)|rewrite (cl_endwhile TW c H)|rewrite (cl_for TW c H)|rewrite (cl_endfor TW c H)];
+  - apply base_kind. unfold kw_names in H. rewrite !app_assoc. apply in_or_app. left. apply in_or_app. left.
+    rewrite <- !app_assoc. exact H.
+  - destruct (kw_names_split c H) as [H1|[H1|[H1|[H1|[H1|[H1|[H1|H1]]]]]]];
+      [rewrite (cl_if TW c H1)|rewrite (cl_elseif TW c H1)|rewrite (cl_else TW c H1)|rewrite (cl_endif TW c H1)
+      |rewrite (cl_while TW c H1)|rewrite (cl_endwhile TW c H1)|rewrite (cl_for TW c H1)|rewrite (cl_endfor TW c H1)];
       discriminate.
 Qed.
 Lemma fstep_kw l sp a w f g : In sp kw_names ->
@@ -504,14 +515,28 @@ Proof.
 Qed.
 Ltac kwn := unfold kw_names; repeat (first [apply in_or_app; left; assumption | apply in_or_app; right]); try assumption.
 
+Lemma fcl_endif_name : classify_fn gen_endif_name = FKBase KEndIf.
+Proof.
+  assert (H : In gen_endif_name n_endif) by apply name_in_names.
+  destruct (kw_names_base gen_endif_name) as (E & _); [kwn|]. rewrite E, (cl_endif TW _ H). reflexivity.
+Qed.
+Lemma fcl_endwhile_name : classify_fn gen_endwhile_name = FKBase KEndWhile.
+Proof.
+  assert (H : In gen_endwhile_name n_endwhile) by apply name_in_names.
+  destruct (kw_names_base gen_endwhile_name) as (E & _); [kwn|]. rewrite E, (cl_endwhile TW _ H). reflexivity.
+Qed.
+Lemma fcl_endfor_name : classify_fn gen_endfor_name = FKBase KEndFor.
+Proof.
+  assert (H : In gen_endfor_name n_endfor) by apply name_in_names.
+  destruct (kw_names_base gen_endfor_name) as (E & _); [kwn|]. rewrite E, (cl_endfor TW _ H). reflexivity.
+Qed.
 Lemma fclose_if l e w f g : In e (closers CkIf) -> aget Nat.eqb l (f_end f) = Some gen_endif_name ->
   fstep P l (bkw e ANone) (w, f, g) = (RContinue, (w, f, g)).
 Proof.
   intros He Ht. pose proof He as He0. unfold closers in He. apply in_app_or in He. destruct He as [He|[<-|[]]].
   - rewrite fstep_kw by kwn. unfold P0. rewrite (close_if (map down P) TW l e w f He0 Ht). reflexivity.
   - unfold fstep. cbn [fi_cmd fi_arg bkw]. rewrite fcl_end. unfold step_end_fn. rewrite Ht.
-    rewrite base_kind by (unfold n_endif; kwn; apply in_or_app; left; apply in_or_app; right; now left).
-    rewrite (cl_endif_name TW). reflexivity.
+    rewrite fcl_endif_name. reflexivity.
 Qed.
 Lemma fclose_while l e w f g : In e (closers CkWhile) -> aget Nat.eqb l (f_end f) = Some gen_endwhile_name ->
   fstep P l (bkw e ANone) (w, f, g) = lift g (step_endwhile l (w, f)).
@@ -519,8 +544,7 @@ Proof.
   intros He Ht. pose proof He as He0. unfold closers in He. apply in_app_or in He. destruct He as [He|[<-|[]]].
   - rewrite fstep_kw by kwn. unfold P0. rewrite (close_while (map down P) TW l e w f He0 Ht). reflexivity.
   - unfold fstep. cbn [fi_cmd fi_arg bkw]. rewrite fcl_end. unfold step_end_fn. rewrite Ht.
-    rewrite base_kind by (unfold n_endwhile; kwn; apply in_or_app; left; apply in_or_app; right; now left).
-    rewrite (cl_endwhile_name TW). destruct (step_endwhile l (w, f)). reflexivity.
+    rewrite fcl_endwhile_name. destruct (step_endwhile l (w, f)). reflexivity.
 Qed.
 Lemma fclose_for l e w f g : In e (closers CkFor) -> aget Nat.eqb l (f_end f) = Some gen_endfor_name ->
   fstep P l (bkw e ANone) (w, f, g) = lift g (step_endfor l (w, f)).
@@ -528,8 +552,7 @@ Proof.
   intros He Ht. pose proof He as He0. unfold closers in He. apply in_app_or in He. destruct He as [He|[<-|[]]].
   - rewrite fstep_kw by kwn. unfold P0. rewrite (close_for (map down P) TW l e w f He0 Ht). reflexivity.
   - unfold fstep. cbn [fi_cmd fi_arg bkw]. rewrite fcl_end. unfold step_end_fn. rewrite Ht.
-    rewrite base_kind by (unfold n_endfor; kwn; apply in_or_app; left; apply in_or_app; right; now left).
-    rewrite (cl_endfor_name TW). destruct (step_endfor l (w, f)). reflexivity.
+    rewrite fcl_endfor_name. destruct (step_endfor l (w, f)). reflexivity.
 Qed.
 
 Lemma res_eta (r : fres) :
